@@ -218,7 +218,8 @@ func handleWithdraw(ctx *core.MessageContext, payload []byte) error {
 	number := ctx.Header.Number.Uint64() // for convenience
 	db := ctx.State
 	currStaking := db.GetStakingRecordValue(common.Address{}, tx.MainAddress)
-	if currStaking.Sign() == 0 {
+	noPending := currStaking.Sign() == 0
+	if noPending {
 		currStaking = val.SelfToken
 	}
 
@@ -227,6 +228,11 @@ func handleWithdraw(ctx *core.MessageContext, payload []byte) error {
 	if currStaking.Cmp(tx.Value) < 0 {
 		log.Error("withdraw", "number", number, "mainAddr", tx.MainAddress.String(), "check", "token", "old", currStaking, "want", tx.Value)
 		return errInsufficientWithdraw
+	}
+	if noPending {
+		// the pending record of a validator holds its TOTAL tokens (self + delegations), see
+		// handleDeposit and checkAndUpdateTotalPendingStakesOfValidator.
+		currStaking = val.Token
 	}
 	finalStaking := new(big.Int).Sub(currStaking, tx.Value)
 
